@@ -7,6 +7,7 @@ package checks
 // violation, with the report as replay). Schedules are sampled, not enumerated.
 
 import (
+	"bufio"
 	"context"
 	"fmt"
 	"runtime"
@@ -48,9 +49,10 @@ type c15API struct {
 type c15Scen struct {
 	Clients  []c15Client `json:"clients"`
 	APIs     []c15API    `json:"apis"`
-	Idle     int         `json:"idle_sockets"` // connections that never send CONNECT
-	BadAuth  int         `json:"bad_auth"`     // connections whose CONNECT is rejected and which stay open
-	StopAt   int         `json:"stop_at_pct"`  // Stop when this share of the client operations is done (100 = after the workload)
+	Idle     int         `json:"idle_sockets"`     // connections that never send CONNECT
+	BadAuth  int         `json:"bad_auth"`         // connections whose CONNECT is rejected and which stay open
+	Stalled  int         `json:"stalled_reader_v"` // 0 none; 4/5: a subscriber of that version stops reading, is flooded, then taken over
+	StopAt   int         `json:"stop_at_pct"`      // Stop when this share of the client operations is done (100 = after the workload)
 	MaxProcs int         `json:"gomaxprocs"`
 }
 
@@ -59,7 +61,8 @@ var c15Filters = []string{"c/a", "c/+", "c/#", "#", "$share/g/c/a", "$sys/#"}
 
 func genC15(t *rapid.T) c15Scen {
 	s := c15Scen{Idle: rapid.IntRange(0, 2).Draw(t, "idle"), BadAuth: rapid.IntRange(0, 2).Draw(t, "bad"),
-		StopAt: rapid.SampledFrom([]int{30, 60, 100, 100}).Draw(t, "stopat"), MaxProcs: rapid.SampledFrom([]int{2, 4, 16}).Draw(t, "procs")}
+		StopAt: rapid.SampledFrom([]int{30, 60, 100, 100}).Draw(t, "stopat"), MaxProcs: rapid.SampledFrom([]int{2, 4, 16}).Draw(t, "procs"),
+		Stalled: rapid.SampledFrom([]int{0, 0, 0, 4, 5}).Draw(t, "stalled")}
 	n := rapid.IntRange(4, 12).Draw(t, "nclients")
 	for i := 0; i < n; i++ {
 		cl := c15Client{ID: rapid.IntRange(0, 4).Draw(t, "id"), V: rapid.SampledFrom([]int{4, 5}).Draw(t, "v"), Clean: rapid.Bool().Draw(t, "clean"),
@@ -285,6 +288,73 @@ func runC15(s c15Scen, c *ev.Case) *ev.Violation {
 			name, lvl := mw.ProtoFor(mw.V5)
 			_ = cl.Send(&mw.Packet{Type: mw.CONNECT, ProtoName: name, ProtoLevel: lvl, ClientID: fmt.Sprintf("bad%d", i), CleanStart: true, HasUsername: true, Username: "bad"})
 		}
+	}
+	// a subscriber that stops reading while data is queued for it, then a second connection with its client id
+	if s.Stalled != 0 {
+		c.Label("stalled_reader_takeover")
+		wg.Add(1)
+		go func() {
+			defer wg.Done()
+			conn, err := b.DialConn()
+			if err != nil {
+				return
+			}
+			defer conn.Close()
+			v := ver(s.Stalled)
+			name, lvl := mw.ProtoFor(v)
+			br := bufio.NewReader(conn)
+			send := func(p *mw.Packet) bool {
+				raw, err := mw.Encode(p, v)
+				if err != nil {
+					return false
+				}
+				_ = conn.SetWriteDeadline(time.Now().Add(c15Wait))
+				_, err = conn.Write(raw)
+				return err == nil
+			}
+			read := func(t mw.Type) bool {
+				_ = conn.SetReadDeadline(time.Now().Add(c15Wait))
+				for {
+					p, err := mw.ReadPacket(br, v, mw.ToClient)
+					if err != nil {
+						return false
+					}
+					if p.Type == t {
+						return true
+					}
+				}
+			}
+			cp := &mw.Packet{Type: mw.CONNECT, ProtoName: name, ProtoLevel: lvl, ClientID: "stalled", CleanStart: true}
+			if s.Stalled == 5 {
+				cp.Props = &mw.Props{SessionExpiry: u32p(30)}
+			}
+			if !send(cp) || !read(mw.CONNACK) {
+				return
+			}
+			if !send(&mw.Packet{Type: mw.SUBSCRIBE, PacketID: 1, Subs: []mw.SubReq{{Filter: "flood", QoS: 0}}}) || !read(mw.SUBACK) {
+				return
+			}
+			// from here on the client does not read any more
+			big := make([]byte, 48*1024)
+			for k := 0; k < 24 && !stopping.Load(); k++ {
+				b.Srv.Publisher().Publish(&gmqtt.Message{Topic: "flood", QoS: 0, Payload: big})
+			}
+			time.Sleep(30 * time.Millisecond)
+			if stopping.Load() {
+				return
+			}
+			// take-over: must be answered although the old connection's writer is stuck
+			c2, err := b.DialConn()
+			if err != nil {
+				return
+			}
+			cl2 := fixture.NewClient(c2, "stalled", v)
+			track(cl2)
+			cp2 := &mw.Packet{Type: mw.CONNECT, ProtoName: name, ProtoLevel: lvl, ClientID: "stalled", CleanStart: false, Props: cp.Props}
+			if cl2.Send(cp2) == nil {
+				answered(cl2, "CONNECT taking over a stalled client", func(p *mw.Packet) bool { return p.Type == mw.CONNACK })
+			}
+		}()
 	}
 	// API goroutines
 	for ai, a := range s.APIs {
